@@ -20,7 +20,14 @@ use crate::gen::*;
 pub const PROPS: [&str; 6] = ["C01", "C02", "C06", "C07", "C08", "C41"];
 
 /// Bits below the whole address space: <<>> is 0.0.0.0/0 resp. ::/0.
+/// Number of prefix bits, not counting a leading family tag (4 or 6).
+pub fn plain_len(bits: &[u8]) -> usize {
+    match bits.first() { Some(4) | Some(6) => bits.len() - 1, _ => bits.len() }
+}
+
 pub fn prefix_of(bits: &[u8], v6: bool) -> String {
+    // a leading 4 or 6 names the address family (shape "families"); without it the family is that of the run
+    let (bits, v6) = match bits.first() { Some(4) => (&bits[1..], false), Some(6) => (&bits[1..], true), _ => (bits, v6) };
     if v6 {
         let mut v: u128 = 0;
         for (i, b) in bits.iter().enumerate() { if *b == 1 { v |= 1u128 << (127 - i); } }
@@ -135,7 +142,7 @@ pub fn concretise(b: &Value, v6: bool) -> Concrete {
         let (kind, name, pl) = match o["kind"].as_str().unwrap() {
             "roa" => {
                 let p = prefix_of(&bits(&o["p"]), v6);
-                let len = bits(&o["p"]).len() as u8;
+                let len = plain_len(&bits(&o["p"])) as u8;
                 let asn = asn_of(o["asn"].as_u64().unwrap());
                 let (addr, _) = p.split_once('/').unwrap();
                 (ObjKind::Roa { asn, prefixes: vec![(p.clone(), len)] }, format!("o{n}.roa"),
@@ -167,7 +174,7 @@ pub fn expected_payload(b: &Value, v6: bool) -> Payload {
         match item[0].as_str().unwrap() {
             "roa" => {
                 let pre = prefix_of(&bits(&item[1]), v6);
-                let len = bits(&item[1]).len();
+                let len = plain_len(&bits(&item[1]));
                 let (addr, _) = pre.split_once('/').unwrap();
                 p.origins.insert(format!("{addr}/{len}-{len} AS{}", asn_of(item[2].as_u64().unwrap())));
             }
